@@ -1184,7 +1184,7 @@ class TypeSystem:
         for f in t.all_features:
             if f.rangeType.name == "uima.cas.FSArray":
                 # Not `fs.value(...)`: a feature named `value` shadows that method on the instance
-                feature_value = getattr(fs, f.name)
+                feature_value = getattr(fs, f.name, None)
                 if feature_value is None or not feature_value.elements:
                     continue
                 # We check for every element that it is of type `elementType` or a child thereof
